@@ -11,10 +11,12 @@ triple as Coq terms and lets coqc decide by vm_compute
   kinds_assemble   assemble_cert fe fa = true    CERT_kinds_assemble_sound / _runs: whenever evaluate
                    returns, assemble returns with the same fuel and builds the same structure, for
                    ALL inputs (and whatever the input values are)
-  kinds_compute    compute_cert3 fe fc = true    the compute kernel is evaluate minus allocation /
-                   capacity bookkeeping / structure stores / field assignments, and no kept statement
-                   reads what the dropped ones change (soundness statement: CERT_kinds_compute_full,
-                   not yet a theorem -- see design.d/CERT_kinds.md)
+  kinds_compute    compute_cert3 fe fc = true    CERT_kinds_compute_sound / _values: from any pair of
+                   states where the inputs are the same and out->vals of the compute side is a live
+                   double block, whenever evaluate returns, compute (same fuel) returns the same value
+                   and every value evaluate stored is in that block -- or compute fails with
+                   EOutOfBounds, nothing else; for ALL inputs (the harness-level glue
+                   CERT_kinds_history_full is not yet a theorem -- see design.d/CERT_kinds.md)
 
 A `false` (or a shard that does not evaluate) goes to chk.broken (kind `certificate`, problem and
 kernel named): a broken obligation, not by itself a violation; the calling check's history sweep
@@ -30,7 +32,7 @@ from vlib.core import BUILD
 
 THEOREM = {
     "kinds_assemble": "CERT_kinds_assemble_sound/_runs: whenever evaluate returns, assemble returns (same fuel) with the same output structure, for all inputs",
-    "kinds_compute": "CERT_kinds_compute_full (statement; alignment evaluate ~ compute checked syntactically): compute after assemble reproduces evaluate's values",
+    "kinds_compute": "CERT_kinds_compute_sound/_values: whenever evaluate returns, compute (same fuel, started on a live value block, same inputs) returns with every value evaluate stored -- or fails with EOutOfBounds only -- for all inputs",
 }
 
 
